@@ -1,6 +1,7 @@
 (* C07 — imports are confined by local configuration: criteria map, exclude, importable. *)
 Require Import Base Extracted Criteria Search AuditGraph DepGraph Resolve Update Imports.
 Require Import CriteriaProofs ImportsProofs ResolveProofs ResolveTheorems RecordSets.
+Require Import LockSync LockSyncProofs.
 Local Open Scope N_scope.
 
 (* An imported entry contributes to local criterion x exactly when some criterion f
@@ -69,6 +70,26 @@ Example C07_nonvacuous :
   localise [[]] [[1]] [(2, [2]); (1, [])] [2] = [0; 2] /\ ct_acyclic [[]] = true.
 Proof. vm_compute. auto. Qed.
 
+(* `exclude` when LOCKED (no fetch, imports.lock is used as it is): the load is accepted only if imports.lock is in step
+   with config.toml (LockSync.v, model of Store::imports_lock_outdated) — the same import names on both sides and, for every
+   import wherever it stands, no audit and no wildcard audit of a crate it excludes left in its section; conversely such a
+   stale entry is always noticed *)
+Theorem C07_accepted_lock_is_in_step : forall cfg lock, lock_outdated false cfg lock = LInSync ->
+  map ic_name cfg = map ls_name lock /\
+  forall c, In c cfg -> exists s, In s lock /\ ls_name s = ic_name c /\
+    forall n, In n (ic_exclude c) -> ~ In n (ls_audit_crates s) /\ ~ In n (ls_wild_crates s).
+Proof. exact accepted_lock_is_in_step. Qed.
+Theorem C07_stale_excluded_entry_is_refused : forall cfg lock c s n,
+  map ic_name cfg = map ls_name lock -> NoDup (map ls_name lock) ->
+  In c cfg -> In s lock -> ls_name s = ic_name c -> In n (ic_exclude c) ->
+  (In n (ls_audit_crates s) \/ In n (ls_wild_crates s)) ->
+  lock_outdated false cfg lock = LOutdated.
+Proof. exact stale_excluded_entry_is_refused. Qed.
+Example C07_stale_exclude_nonvacuous :
+  lock_outdated false [ {| ic_name := 0; ic_exclude := [] |}; {| ic_name := 1; ic_exclude := [7] |} ]
+                      [ {| ls_name := 0; ls_audit_crates := [7]; ls_wild_crates := [] |}; {| ls_name := 1; ls_audit_crates := []; ls_wild_crates := [7] |} ] = LOutdated.
+Proof. vm_compute. reflexivity. Qed.
+
 Print Assumptions C07_mapping.
 Print Assumptions C07_unmapped_contributes_nothing.
 Print Assumptions C07_builtins_map_to_themselves.
@@ -79,3 +100,5 @@ Print Assumptions C07_multi_url_is_union.
 Print Assumptions C07_freshness_marking_keeps_entries.
 Print Assumptions C07_multi_url_verdict_is_that_of_the_union.
 Print Assumptions C07_verdict_is_a_function_of_the_remaining_records.
+Print Assumptions C07_accepted_lock_is_in_step.
+Print Assumptions C07_stale_excluded_entry_is_refused.
